@@ -87,12 +87,28 @@ def _neutralise_clocks():
     pytools.DebugProcessLogger = _SilentProcessLogger
 
 
+def _shim_post_init():
+    """python -O only.  pytato defines AbstractResultWithNamedArrays.
+    __post_init__ under `if __debug__:`, but LoopyCall.__post_init__ calls
+    super().__post_init__() unconditionally: under -O every call_loopy raises
+    AttributeError.  Not one of the listed properties (nothing about equality,
+    keys or code generation: the node cannot even be built), so it is noted in
+    DESIGN.md rather than repaired; this no-op lets the -O interpreters build
+    loopy calls at all."""
+    from pytato.array import AbstractResultWithNamedArrays
+    if not hasattr(AbstractResultWithNamedArrays, "__post_init__"):
+        AbstractResultWithNamedArrays.__post_init__ = lambda self: None
+
+
 def main():
     _neutralise_clocks()
     import pytato  # noqa: F401
     root = os.environ.get("VERIF_PYTATO_ROOT", "/repo")
-    assert os.path.realpath(pytato.__file__).startswith(
-        os.path.realpath(root) + os.sep), pytato.__file__
+    if not os.path.realpath(pytato.__file__).startswith(
+            os.path.realpath(root) + os.sep):
+        raise RuntimeError(f"wrong pytato: {pytato.__file__}")
+    if not __debug__:
+        _shim_post_init()
     from simkit import fleet_ops
     fleet_ops.PIPE = (send, recv)
     state = fleet_ops.State()
